@@ -42,6 +42,9 @@ func runC01(c *Ctx) {
 	c.Floor("C01.R3.PA4", n4, 2, "pawn-capture colour sites")
 	c01R4(c, p, "C01.R4")
 	c01R5(c, p)
+	// en-passant captures are generated from the recorded target: the recording rule is part of C01 too
+	c02R2(c, p, "C01.R6.ep-recorded")
+	c02R7(c, p, "C01.R6.ep-capturable")
 }
 
 // descends: own functions from which board.MakeMove is reachable (they play moves on the board).
